@@ -108,6 +108,8 @@ def run(ctx):
     from .poolvalue import check_v1_pools, check_v2_v3_pool, check_v4_min_liquidity, check_no_lp_outflow, check_v5_rounding
     T = "stableswap_3pool"
     check_v1_pools(ctx, model, T, "C04-V1")
+    from .poolvalue import check_fee_lookup_same_asset
+    check_fee_lookup_same_asset(ctx, model, T, "C04-V1")
     check_v2_v3_pool(ctx, model, T, "C04-V3")
     check_v4_min_liquidity(ctx, model, "%s::commands::provide_liquidity" % T, "C04-V4")
     check_no_lp_outflow(ctx, model, T, "C04-V4", "liquidity_token")
